@@ -1,11 +1,11 @@
 (* Extract.v — extraction of the executable models (ExtrOcamlBasic only). *)
-From GK Require Import Base Treap Store MStore Codec Disk Lazy LazyMut LazyFault LazySeq LazySeq2 Blocks DStore DStoreRefine DiskFault DFaultRun DFaultRefine CopyRun.
+From GK Require Import Base Treap Store MStore Codec Disk Lazy LazyMut LazyFault LazySeq LazySeq2 LazySeq3 Blocks DStore DStoreRefine DiskFault DFaultRun DFaultRefine CopyRun.
 Require Extraction.
 Require Import ExtrOcamlBasic.
 Extraction Language OCaml.
 Extraction "model.ml" Store.run Store.init Store.step Base.cmp_of Treap.elems
   Disk.decode_store Disk.conforms_v4 Disk.contents Codec.root_at Disk.scan Disk.flush_bytes Disk.revert_bytes Treap.num Treap.nby
-  Lazy.get_reads Lazy.minmax_reads Lazy.visit_reads Lazy.open_reads LazyMut.mut_reads_file LazyFault.get_fault_file LazySeq.seq_reads_file LazySeq2.seq2_reads_file Base.blen
+  Lazy.get_reads Lazy.minmax_reads Lazy.visit_reads Lazy.open_reads LazyMut.mut_reads_file LazyFault.get_fault_file LazySeq.seq_reads_file LazySeq2.seq2_reads_file LazySeq3.seq3_reads_file Base.blen
   MStore.mrun MStore.minit
   CopyRun.copy_result DFaultRun.dfrun DFaultRefine.fhist_okb DStore.drun DStore.dfiles DStore.dinit DStoreRefine.dhist_ok
   Blocks.block_visit Blocks.random_visit Blocks.len_visit Blocks.determine_blocks.
